@@ -23,7 +23,7 @@ def run(ctx):
         return
     if ctx.model: cm.set_model_dir(os.path.dirname(ctx.model))
     known = {k.get('id') for k in ctx.known_list if k.get('property') == 'C18'}
-    n = 4000 if ctx.quick() else 40000
+    n = 4000 if ctx.quick() else 15000
     seeds = [ctx.seed] if ctx.quick() else [ctx.seed, ctx.seed + 1000, ctx.seed + 2000]
     hists = cm.directed_histories() + cm.cycle_histories()
     for seed in seeds:
